@@ -375,7 +375,7 @@ def run_case(R, level, op, db, args, label="gen"):
             # the agent's state changes: every answer must be the agent's CURRENT one
             oid = tuple(args["oid"])
             v2, v3 = args["v2"], args["v3"]
-            w.seam.budget = 30
+            w.seam.budget = 60
             fp = ("c04", op, level, db[oid][0], v2[0], v3[0])
             steps = []
             R.case(fp, True, sample=case if R.evaluations % 301 == 0 else None)
@@ -394,6 +394,20 @@ def run_case(R, level, op, db, args, label="gen"):
                 steps.append(("multiget-twice-same-oid", got, [v3, v3]))
                 w.agent.db[oid] = db[oid]
                 steps.append(("get-after-restore", get(), db[oid]))
+                # copy / restore: value OBJECTS that came out of responses (single get,
+                # multiget, get-next) are written back as they are; the agent must
+                # receive exactly those typed values
+                others = [k for k in sorted(db) if k != oid and db[k][0] not in ("nso", "nsi", "eomv")][:3]
+                if others and not (v1 and any(db[k][0] == "c64" for k in others)):
+                    objs = [drive(c.get(OID(others[0])))] + list(drive(c.multiget([OID(k) for k in others[1:]]))) if len(others) > 1 else [drive(c.get(OID(others[0])))]
+                    target = oid
+                    for k, obj in zip(others, objs):
+                        echoed = to_tuple(drive(c.set(OID(target), obj)))
+                        steps.append(("write-back-of-a-read-value", (echoed, w.agent.db.get(target)), (db[k], db[k])))
+                    pairs = {OID(target): objs[0]}
+                    drive(c.multiset(pairs))
+                    steps.append(("multiset-of-a-read-value", w.agent.db.get(target), db[others[0]]))
+                    R.mon["read_values_written_back"] += len(objs) + 1
             except rig.BudgetExceeded:
                 raise
             except Exception as exc:  # noqa: BLE001
@@ -612,7 +626,20 @@ def run(R):
             run_case(R, level, "multigetnext", db, {"oids": [(1, 3), last, (1, 3)]}, "corner")
             if level != "v1":
                 run_case(R, level, "bulkget", db, {"scalars": [last], "repeaters": [(1, 3), last], "maxrep": 3}, "corner")
+            # every counter that can travel in a Report PDU is also an ordinary object a
+            # manager may read: usmStats*, snmpMPDStats (snmpUnknownSecurityModels,
+            # snmpInvalidMsgs, snmpUnknownPDUHandlers), snmpUnavailableContexts,
+            # snmpUnknownContexts
             stats = {(1, 3, 6, 1, 6, 3, 15, 1, 1, x, 0): ("c32", x) for x in range(1, 7)}
+            mpd = {(1, 3, 6, 1, 6, 3, 11, 2, 1, x, 0): ("c32", 10 + x) for x in (1, 2, 3)}
+            mpd.update({(1, 3, 6, 1, 6, 3, 12, 1, 4, 0): ("c32", 4), (1, 3, 6, 1, 6, 3, 12, 1, 5, 0): ("c32", 5)})
+            for o in sorted(mpd):
+                run_case(R, level, "get", {**db, **mpd}, {"oids": [o]}, "corner-reportstats")
+            run_case(R, level, "multiget", {**db, **mpd}, {"oids": sorted(mpd)}, "corner-reportstats")
+            run_case(R, level, "getnext", {**db, **mpd}, {"oids": [(1, 3, 6, 1, 6, 3, 11)]}, "corner-reportstats")
+            run_case(R, level, "multigetnext", {**db, **mpd}, {"oids": [(1, 3, 6, 1, 6, 3, 11), (1, 3, 6, 1, 6, 3, 12, 1, 4)]}, "corner-reportstats")
+            if level != "v1":
+                run_case(R, level, "bulkget", {**db, **mpd}, {"scalars": [], "repeaters": [(1, 3, 6, 1, 6, 3, 11)], "maxrep": 5}, "corner-reportstats")
             run_case(R, level, "multiget", {**db, **stats}, {"oids": sorted(stats)[:3]}, "corner-usmstats")
             run_case(R, level, "getnext", {**db, **stats}, {"oids": [(1, 3, 6, 1, 6, 3, 15, 1, 1, 3)]}, "corner-usmstats")
 
